@@ -18,6 +18,8 @@ type Check struct {
 	Tier     string
 	Level    string
 	Only     string // replay: only the case with this id
+	Collect   bool      // collect mode: JudgeAll only records the cases (used to reuse families in other properties)
+	Collected []*Case
 	Deadline time.Time
 	S        *Scratch
 	R        *Runner
@@ -67,6 +69,11 @@ func NewCheck(prop, tier, level string) (*Check, error) {
 		return nil, err
 	}
 	return c, nil
+}
+
+// Collector returns a check object in collect mode sharing this check's scratch area.
+func (c *Check) Collector(prop string) *Check {
+	return &Check{Prop: prop, Tier: c.Tier, Collect: true, S: c.S, R: c.R, KnownHit: map[string]int{}, Coverage: map[string]interface{}{}, distinctProg: map[string]bool{}, Deadline: c.Deadline}
 }
 
 // Expired reports whether the internal deadline has passed (stop enumerating, exhaustive=false).
@@ -170,6 +177,14 @@ func (c *Check) Internalf(format string, a ...interface{}) {
 // JudgeAll runs the cases, judges them, re-runs violation candidates alone and
 // files confirmed violations / known findings. It returns the results.
 func (c *Check) JudgeAll(cases []*Case) []*Result {
+	if c.Collect {
+		c.Collected = append(c.Collected, cases...)
+		rs := make([]*Result, len(cases))
+		for i, cs := range cases {
+			rs[i] = &Result{Case: cs, NotRun: true, Pkgs: map[string]*PkgResult{}}
+		}
+		return rs
+	}
 	if c.Only != "" {
 		var f []*Case
 		for _, cs := range cases {
@@ -352,7 +367,7 @@ func (c *Check) Finish() int {
 		"property_id": c.Prop, "tier": c.Tier, "seed": seed, "level": c.Level,
 		"coverage": cov, "assumptions": c.Assumptions, "wall_s": wall, "violations": len(c.Violations),
 	}
-	if c.Only == "" {
+	if c.Only == "" && os.Getenv("VERIF_REPO") == "" { // demonstrations against a scratch tree never overwrite evidence
 		b, _ := json.MarshalIndent(ev, "", " ")
 		os.MkdirAll(filepath.Join(VerifDir(), "evidence"), 0o755)
 		if err := os.WriteFile(filepath.Join(VerifDir(), "evidence", c.Prop+".json"), append(b, '\n'), 0o644); err != nil {
